@@ -334,6 +334,34 @@ pub fn check_block_result(r: &BlockTranslationResult, seed: u64, checked: &mut C
                     &mut out,
                 );
             }
+            // and every instruction of the lifted block can be reached from its entry (the
+            // graphs were chained entry to exit, none was left hanging)
+            if let Some(entry) = cfg.entry() {
+                let mut seen: BTreeSet<usize> = BTreeSet::new();
+                let mut todo = vec![entry];
+                while let Some(b) = todo.pop() {
+                    if seen.insert(b) {
+                        todo.extend(succ.get(&b).into_iter().flatten().map(|e| e.tail()));
+                    }
+                }
+                for b in cfg.blocks() {
+                    if !seen.contains(&b.index()) {
+                        if let Some(i) = b.instructions().first() {
+                            out.push(Finding {
+                                rule: "blockify-unreachable",
+                                address: i.address(),
+                                detail: format!(
+                                    "block {} of the blockified result ('{}' ..) cannot be reached from its entry block {}",
+                                    b.index(),
+                                    i,
+                                    entry
+                                ),
+                            });
+                            break;
+                        }
+                    }
+                }
+            }
         }
     }
     if !r.successors().is_empty() {
